@@ -41,7 +41,8 @@ MANIFEST = {
              "equations or own lags; the executable decision admissibleFlags is sound and complete for Admissible; end-to-end theorem "
              "simulate_all_equations_hold with hypotheses on the model text, span and plan only; converse: an Admissible dates/equations "
              "order forces the closed-form condition on LHS rows; _detect_exogenized hits the target for every transform at EVERY shift "
-             "<= -1 (Python indexing of values_before modelled, out-of-range = error); the data array's extent nPre/nPost is computed by the "
+             "<= -1 (Python indexing of values_before modelled, out-of-range = error); every row of CHOOSE_TRANSFORM_CLASS, aliases "
+             "included, maps its spelling to the class of the documented transform; the data array's extent nPre/nPost is computed by the "
              "model and every read is proved to land inside it; the returned databox target_db | out_db is modelled as a dict union (fresh "
              "results override, other names carried over, target order kept); the model object is a state machine (reorder / copy / "
              "simulate) whose invariant 'compiled evaluators = finalize of the current order' is proved, and row numbering is proved "
@@ -67,6 +68,26 @@ ASSUMPTIONS = [
 TR_FUNC = {"None": None, "Log": "log", "Diff": "diff", "DiffLog": "diff_log", "Roc": "roc", "Pct": "pct"}
 PLAN_KW = {"None": None, "Log": "log", "Diff": "diff", "DiffLog": "diff_log", "Roc": "roc", "Pct": "pct", "Flat": "flat"}
 PLAN_FMT = {"None": "{}", "Log": "log_{}", "Diff": "diff_{}", "DiffLog": "diff_log_{}", "Roc": "roc_{}", "Pct": "pct_{}", "Flat": None}
+# every documented spelling of the `transform=` keyword of SimulationPlan.exogenize (None = level targets)
+PLAN_SPELLINGS = {"None": [None, "none", "level"], "Log": ["log"], "Diff": ["diff"], "DiffLog": ["diff_log", "difflog"],
+                  "Roc": ["roc"], "Pct": ["pct"], "Flat": ["flat"]}
+
+
+def oracle_plan_kind(spelling):
+    """the oracle's own reading of a `transform=` keyword, from the documentation: level / log / diff / diff_log (difflog) / roc /
+    pct / flat; underscores do not matter"""
+    if spelling is None:
+        return "None"
+    w = spelling.replace("_", "").lower()
+    return {"none": "None", "level": "None", "log": "Log", "diff": "Diff", "difflog": "DiffLog", "roc": "Roc", "pct": "Pct",
+            "flat": "Flat"}[w]
+
+
+def plan_spelling(p):
+    """the keyword a plan entry passes to exogenize(): `spelling` when the case carries one (older corpus cases do not)"""
+    return p["spelling"] if "spelling" in p else PLAN_KW[p["kind"]]
+
+
 PLAN_USES_LAG = {"None": False, "Log": False, "Diff": True, "DiffLog": True, "Roc": True, "Pct": True, "Flat": True}
 FN_NAME = {0: "exp", 1: "log", 2: "sqrt"}
 NAN = float("nan")
@@ -344,7 +365,8 @@ def gen_case(rng, style=None) -> dict:
                 shift = -1 if rng.chance(0.8) else rng.choice([-2, -3, -1])
                 a = rng.randint(0, nper - 1)
                 b = rng.randint(a, min(nper - 1, a + rng.randint(0, 3)))
-                plan.append({"name": name, "cols": list(range(a, b + 1)), "kind": kind, "when": when, "shift": shift})
+                plan.append({"name": name, "cols": list(range(a, b + 1)), "kind": kind, "when": when, "shift": shift,
+                             "spelling": rng.choice(PLAN_SPELLINGS[kind])})
     # ---- data ---------------------------------------------------------------------------------
     positive = set(e["lhs"] for e in eqs if e["tr"] in ("Log", "DiffLog", "Roc", "Pct"))
     for e in eqs:
@@ -504,7 +526,8 @@ def request_line(case, mode, order, eff=None) -> str:
         fmt = PLAN_FMT[p["kind"]]
         tgt = "-" if fmt is None else str(row[fmt.format(p["name"])])
         for c in p["cols"]:
-            secs.append(f"P {row[p['name']]} {npre + c} {p['kind']} {1 if p['when'] else 0} {p['shift']} {tgt}")
+            # the model resolves the keyword itself (`@<keyword>`, PlanT.ofSpelling?)
+            secs.append(f"P {row[p['name']]} {npre + c} @{plan_spelling(p) or ''} {1 if p['when'] else 0} {p['shift']} {tgt}")
     res_names = set("res_" + e["lhs"] for e in case["eqs"] if not e["identity"])
     for n, i in row.items():
         if n in case["pars"]:
@@ -577,7 +600,7 @@ def build_impl(case, counts=None):
                 kw["when_data"] = True
             if p["shift"] != -1:
                 kw["shift"] = p["shift"]
-            plan.exogenize(tuple(p0 + c for c in p["cols"]), p["name"], transform=PLAN_KW[p["kind"]], **kw)
+            plan.exogenize(tuple(p0 + c for c in p["cols"]), p["name"], transform=plan_spelling(p), **kw)
         return plan
 
     def simulate(model, order):
@@ -872,7 +895,7 @@ def oracle(ctx: Ctx, case, order, status, vals, out_db, eff=None):
     points = {}
     for p in case["plan"]:
         for c in p["cols"]:
-            points[(p["name"], c)] = p
+            points[(p["name"], c)] = {**p, "kind": oracle_plan_kind(plan_spelling(p))}     # the oracle resolves the spelling itself
     closed = static_condition(parsed, order, nper)
     sched = ([(c, i) for c in range(nper) for i in range(len(parsed))] if order == "de"
              else [(c, i) for i in range(len(parsed)) for c in range(nper)])
@@ -980,7 +1003,13 @@ def oracle(ctx: Ctx, case, order, status, vals, out_db, eff=None):
                 want = (d if kind == "None" else math.exp(d) if kind == "Log" else lag + d if kind == "Diff"
                         else lag * math.exp(d) if kind == "DiffLog" else lag * d if kind == "Roc"
                         else lag * (1 + d / 100) if kind == "Pct" else lag)
-                got = ev.value(e["name"], 0)
+                if want != want or math.isinf(want):
+                    raise Skip()
+                got = read(e["name"], c)
+                if got is None or got != got:
+                    got = NAN            # the implied value is a number, so the variable must be one
+                elif math.isinf(got):
+                    raise Skip()
                 if not abs(got - want) <= 1e-9 * max(1.0, abs(want), abs(got)):
                     ctx.fail("exogenized-value", {"case": case, "order": order},
                              f"order={order} `{e['name']}` exogenized ({kind}, target {d!r}, shift {point['shift']}) at simulated period #{c}: "
@@ -1147,6 +1176,7 @@ def run_cases(ctx: Ctx, cases, with_model=True):
             ctx.count("lhs_transform_" + e["tr"] + ("_identity" if e["identity"] else ""))
         for p in case["plan"]:
             ctx.count("plan_" + p["kind"] + ("_when_data" if p["when"] else ""))
+            ctx.count("plan_keyword_" + str(plan_spelling(p)))
         ctx.count("impl_" + status)
         if order == "de":
             src_text = source_of(case)
